@@ -223,12 +223,15 @@ def classify(v):
 def gen_and_check(ctx, work, k):
     rng = ctx.rng
     nrec = rng.choice([1, 2, 9, 40, 120] + ([400] if ctx.thorough else []))
+    ms0 = rng.choice([9, 12, 14, 16])
+    align = rng.choice([None, 1 << ms0, 1 << 14])        # tabix windows are 2^14, CSI windows 2^min_shift
     spec = vcfgen.simple_file(rng, nrec=nrec, ncontig=rng.choice([1, 2, 3, 5]), long_refs=rng.random() < 0.6,
-                              span=rng.choice([3000, 100_000, 3_000_000]))
+                              span=rng.choice([3000, 100_000, 3_000_000]), align=align)
+    ctx.count("positions_on_window_starts" if align else "positions_free")
     block = rng.choice([200, 500, 3000, 0xFF00])
     text, uoffs, total = vcfgen.layout(spec)
     for kind in ("vcf.gz+tbi", "vcf.gz+csi", "bcf+csi"):
-        ms = rng.choice([9, 12, 14, 16])
+        ms = ms0 if rng.random() < 0.7 else rng.choice([9, 12, 14, 16])
         path = vcfgen.materialise(spec, pathlib.Path(work) / f"g{k}", kind, block_size=block, min_shift=ms)
         check_file(ctx, spec, path, None, f"htslib {kind} min_shift={ms} block={block}", block)
     # synthesised CSI over the same vcf.gz (own BGZF layout known)
@@ -279,7 +282,7 @@ def run(ctx):
     work = common.scratch_dir("c04-")
     try:
         k1_witness(ctx, work)
-        n = 40 if ctx.thorough else 10
+        n = 160 if ctx.thorough else 40
         if ctx.search_mode:
             n *= 2
         for k in range(n):
